@@ -84,7 +84,7 @@ func classify(m *caseMeta, lines []string) string {
 	if m != nil && strings.Contains(m.Lit, "\u00c4b") {
 		return "nonascii-struct-field-name"
 	}
-	if m != nil && m.Dir == "go2js" && m.Path == 6 && (m.Kind == "array" || m.Kind == "struct") {
+	if m != nil && m.Dir == "go2js" && m.Path == 6 && (m.Kind == "array" || m.Kind == "struct") && (strings.Contains(joined, "cannot internalize undefined") || strings.Contains(joined, "Cannot read properties of undefined")) {
 		return "jstag-field-assign-array-or-struct"
 	}
 	for _, l := range lines {
@@ -522,7 +522,7 @@ func Run(c *core.Ctx) int {
 					triples["js:"+m.Kind+"|"+m.Lit] = true
 				}
 				typeClass[m.Type+" -> "+m.Class] = true
-				if valueCases%977 == 1 {
+				if valueCases%(211+97*len(j.name)) == 1 {
 					c.Sample(map[string]any{"program": j.name, "case": id, "dir": m.Dir, "type": m.Type, "class": m.Class, "value": m.Lit})
 				}
 			}
